@@ -5,6 +5,19 @@ VERIF = os.path.dirname(os.path.dirname(os.path.abspath(__file__)))
 ALL = ["C%02d" % i for i in range(1, 21)]
 
 CHECKS = {
+ "C11": dict(
+    category="model_checking",
+    text="ModelExpr.tla gives the denotational semantics of the expression language of cvxopt.modeling (length under the broadcasting rule, "
+         "curvature by the documented composition rules, value), written from modeling.rst. TLC evaluates it on every generated expression "
+         "tree and also checks that every term it classifies convex/concave/affine satisfies the midpoint inequality on the supplied "
+         "assignments (so 'accepted as convex really is' is checked on the specification too). Seeded random trees (variables of lengths 1-3 "
+         "occurring several times, scalar/row/matrix and dense/sparse coefficients, indexing with ints/slices/lists/index matrices, sum, max, "
+         "min, abs, nested) are built with the real operators in crash-isolated children and compared with TLC's expectation: defined or "
+         "refused, len(f), f.value() on 4 assignments (exact), acceptance as <=, >=, == constraint by curvature, and non-aliasing of +f.",
+    design_ref="DESIGN.md section 4 C11",
+    note="Integer data (values exact). Not generated yet: division by a scalar, in-place forms other than += on a copy, 1x1 sparse constants "
+         "(their scalar status is not documented).",
+    technique="TLA+ denotational semantics evaluated by TLC on harness-generated expression trees; differential replay into cvxopt.modeling"),
  "C13": dict(
     category="model_checking",
     text="OpEdit.tla models the op edit state machine (objective/addconstraint/delconstraint/queries/solve) over a pool of "
